@@ -359,7 +359,7 @@ class Actor:
 class World:
     CHUNK_POINTS = (1, 2, 3, 9, -1)
 
-    def __init__(self, alts=(), modes=('Q',), fault_budget=0, horizon=None, step_cap=400):
+    def __init__(self, alts=(), modes=('Q',), fault_budget=0, horizon=None, step_cap=400, policy='deliver-first'):
         install_clock_seams()
         self.loop = VLoop()
         self.loop.install()
@@ -379,6 +379,7 @@ class World:
         self.extra_events = []  # callables returning [(label, fn)] contributed by scenarios
         self.closed = False
         self.ended = False
+        self.policy = policy  # 'deliver-first' (default) | 'app-first-batch': application acts first, reads take all pending bytes
 
     # -- log -----------------------------------------------------------------------------------------------------
     def logev(self, ev):
@@ -414,22 +415,30 @@ class World:
     def events(self):
         """Enabled environment events in canonical order; the first one is the default."""
         ev = []
+        dl = []
+        batch = self.policy == 'app-first-batch'
         for c in self.conns:
             for d in c.dirs():
                 if d.dead or not d.sink_alive():
                     continue
                 if c.flavour == 'tcp':
                     n = d.next_frame_len()
-                    if n is not None:
-                        ev.append((('dlv', d.name, 'W'), lambda d=d, n=n: d.deliver_bytes(n)))
+                    if batch and d.pending:
+                        dl.append((('dlv', d.name, 'A'), lambda d=d: d.deliver_bytes(len(d.pending))))
+                        if n is not None and len(d.pending) > n:
+                            dl.append((('dlv', d.name, 'W'), lambda d=d, n=n: d.deliver_bytes(n)))
+                    elif n is not None:
+                        dl.append((('dlv', d.name, 'W'), lambda d=d, n=n: d.deliver_bytes(n)))
                     elif d.pending:
-                        ev.append((('dlv', d.name, 'rest'), lambda d=d: d.deliver_bytes(len(d.pending))))
+                        dl.append((('dlv', d.name, 'rest'), lambda d=d: d.deliver_bytes(len(d.pending))))
                 elif d.msgs:
-                    ev.append((('dlv', d.name, 'W'), lambda d=d: d.deliver_message()))
+                    dl.append((('dlv', d.name, 'W'), lambda d=d: d.deliver_message()))
+        ap = []
         for a in self.actors:
             if a.enabled(self):
                 st = a.steps[a.pc]
-                ev.append((('app', a.name, st.label), lambda a=a, st=st: self._do_step(a, st)))
+                ap.append((('app', a.name, st.label), lambda a=a, st=st: self._do_step(a, st)))
+        ev = (ap + dl) if batch else (dl + ap)
         for c in self.conns:
             for d in c.dirs():
                 if d.block is not None and not d.block.done():
@@ -455,7 +464,7 @@ class World:
                     if d.dead or not d.sink_alive() or not d.pending:
                         continue
                     n = d.next_frame_len()
-                    if 'all' in self.alts and n is not None and len(d.pending) > n:
+                    if 'all' in self.alts and not batch and n is not None and len(d.pending) > n:
                         alt.append((('dlv', d.name, 'A'), lambda d=d: d.deliver_bytes(len(d.pending))))
                     if 'chunk' in self.alts and n is not None and n > 1:
                         ks = set()
